@@ -39,11 +39,14 @@ thread_queue_acquire_spinlock_if_not_empty(thread_queue_t *p_queue,
         /* The pool is empty.  Lock is not taken. */
         return 1;
     }
+    ABTI_VERIF_POINT(ABTI_VERIF_P_POP_NONEMPTY_SEEN);
     while (ABTD_spinlock_try_acquire(p_lock)) {
         /* Lock acquisition failed.  Check the size. */
+        ABTI_VERIF_COV(ABTI_VERIF_C_POP_LOCK_CONTENDED);
         while (1) {
             if (ABTD_atomic_acquire_load_int(&p_queue->is_empty)) {
                 /* The pool becomes empty.  Lock is not taken. */
+                ABTI_VERIF_COV(ABTI_VERIF_C_POP_BECAME_EMPTY);
                 return 1;
             } else if (!ABTD_spinlock_is_locked(p_lock)) {
                 /* Lock seems released.  Let's try to take a lock again. */
